@@ -13,6 +13,8 @@ unmodified layer1/tdma_sched.c working on the real `l1s.tdma_sched`.
   ways, the 9th tdma_schedule / tdma_schedule_set must return -1 and change nothing (memcmp of the
   whole scheduler), every other frame holds sentinels, then 25 frame steps must run exactly what
   was scheduled.
+* Set sweep: every ring position x every offset x 7 set shapes of 1..6 frames (last frame < 25 ahead),
+  on an empty scheduler and with witness items in every 4th frame, then 30 frame steps.
 * Order sweep: for n = 1..8 all n^n assignments of n priority ranks to n items of one frame (all
   permutations and all tie patterns), scheduled once with tdma_schedule and once as a set, at
   ring position / offset cycling through all 625 pairs: must run in ascending priority with
@@ -142,10 +144,12 @@ def run(ctx):
             jobs.append(("order%d" % n, ["order", n, 0, n ** n], tmo))
         for p in range(0, 25, 5):
             jobs.append(("capacity[%d..%d]" % (p, p + 4), ["capacity", p, p + 5], tmo))
+            jobs.append(("setsweep[%d..%d]" % (p, p + 4), ["setsweep", p, p + 5], tmo))
         results = ctx.pmap(_job, jobs)
 
         c = ctx.cov
-        c.update({"states": 0, "transitions": 0, "order_cases": 0, "capacity_cases": 0, "refusals_checked": 0,
+        c.update({"states": 0, "transitions": 0, "order_cases": 0, "capacity_cases": 0, "refusals_checked": 0, "setsweep_cases": 0,
+                  "set_calls_nonfirst_frame_on_slot24": 0, "set_calls_wrapping_ring": 0,
                   "execute_calls": 0, "items_due_at_execute": 0, "schedule_calls": 0, "set_calls": 0, "resets": 0,
                   "bad_transitions": 0})
         bfs, complete, depth = {}, True, 0
@@ -158,7 +162,8 @@ def run(ctx):
                 hist[i] += x
             if r["args"][0] == "bfs" and ok:
                 bfs[r["name"]] = {k: js[k] for k in ("states", "transitions", "depth", "frontier_exhausted", "K", "alphabet",
-                                                      "max_outstanding", "ring_positions", "min_states_per_position", "item_types")}
+                                                      "max_outstanding", "ring_positions", "min_states_per_position", "item_types",
+                                                      "set_calls", "set_calls_nonfirst_frame_on_slot24", "set_calls_wrapping_ring")}
                 bfs[r["name"]]["config"] = " ".join(map(str, r["args"][1:]))
                 complete = complete and js["frontier_exhausted"] and js["ring_positions"] == 25
                 depth = max(depth, js["depth"])
@@ -166,7 +171,10 @@ def run(ctx):
                           "resets", "bad_transitions"):
                     c[k] += js[k]
             elif ok:
-                for k in ("order_cases", "capacity_cases", "refusals_checked"):
+                for k in ("order_cases", "capacity_cases", "refusals_checked", "setsweep_cases"):
+                    c[k] += js.get(k, 0)
+            if ok:
+                for k in ("set_calls_nonfirst_frame_on_slot24", "set_calls_wrapping_ring"):
                     c[k] += js.get(k, 0)
         c["bfs_runs"] = bfs
         c["depth_reached"] = depth
@@ -176,11 +184,15 @@ def run(ctx):
         c["traces_validated_against_impl"] = c["transitions"]
         c["order_cases_expected"] = 2 * sum(n ** n for n in range(1, 9))
         c["capacity_cases_expected"] = 25 * 25 * 4
+        # 7 shapes of 1,1,2,3,3,4,6 frames; a set is in the domain if its last frame is < 25 ahead; x 2 variants x 25 positions
+        c["setsweep_cases_expected"] = 25 * 2 * sum(25 - (f - 1) for f in (1, 1, 2, 3, 3, 4, 6))
         c["exhaustive"] = bool(complete and c["frontier_exhausted"] and c["order_cases"] == c["order_cases_expected"]
-                               and c["capacity_cases"] == c["capacity_cases_expected"])
+                               and c["capacity_cases"] == c["capacity_cases_expected"]
+                               and c["setsweep_cases"] == c["setsweep_cases_expected"])
         ctx.sample({"bfs_event_sequence": "s24.7,t,S0.2,r3.1.4,R,x", "meaning": "schedule(off 24, prio 32767); frame step; set shape 2 at off 0; "
                     "re-scheduling item at off 3 (follow-up 1 frame later); reset; execute without advance"})
         ctx.sample({"capacity_case": "capacity:24:1:3", "meaning": "ring position 24, offset 1 (wraps to bucket 0), whole ring filled with 200 items"})
+        ctx.sample({"setsweep_case": "t x20, S1.5, t x30", "meaning": "ring position 20, four-frame set one frame ahead (last frame in ring slot 24)"})
         ctx.sample({"order_case": "order:8:16434824", "meaning": "8 items in one frame, ranks = base-8 digits of the index"})
         ctx.assumptions += [
             "x86-64 host build of tdma_sched.c (fixed-width integer types only); callbacks always report success",
@@ -209,8 +221,11 @@ def replay(ctx, case):
         elif tok.startswith("order:"):
             _, n, idx = tok.split(":")
             args = ["order", int(n), int(idx), int(idx) + 1]
-        elif tok != "-" and case.get("mode") in ("bfs", "replay"):
-            args = ["replay", tok]
+        elif tok != "-":
+            # an event sequence (BFS trace, set sweep case); the search's bound K decides when the structure
+            # counts as holding more items than were ever scheduled
+            k = [a[2:] for a in map(str, case.get("args", [])) if a.startswith("K=")]
+            args = ["replay", tok] + ([int(k[0])] if k else [])
         else:
             args = case["args"]          # crash/hang without a located case: re-run the whole job
         r = _job(("replay", args, 1500))
